@@ -328,6 +328,45 @@ def decorate(s, rng, thorough):
 QUEUE, BURST = 8, 14
 
 
+def add_clones(d, s, rng, thorough):
+    """Several measured topics at once (same roles, operations and publications on T, T2, ..): one heartbeat's gossip has to
+    advertise messages of all of them to the same peer. Mostly on scenarios whose late link stays outside every mesh."""
+    if "uroles" in d or d.get("bulk") or any(o["op"] == "stream" for o in d["ops"]) or "gossip" not in d["kinds"]:
+        return d
+    pr = 0.6 if "bridge" in s.get("tags", ()) else (0.03 if thorough else 0.02)
+    if rng.random() >= pr:
+        return d
+    ops, npub = [], 0
+    for o in d["ops"]:
+        if o["op"] == "pub":
+            npub += 1
+            if npub > 2:
+                continue
+        else:
+            npub = 0
+        ops.append(o)
+    d["ops"], d["clones"] = ops, rng.choice([1, 2, 3, 3, 5, 7])
+    return d
+
+
+def multitopic_family(ctx, rng):
+    """Directed: two gossipsub pairs joined later by a link that stays outside every mesh (both ends already have Dlo mesh
+    members) while k = 2..8 topics carry one message each in the same heartbeat window."""
+    fam = []
+    ks = (1, 3, 7) if not ctx.thorough else (1, 2, 3, 4, 5, 6, 7)
+    for c in ks:
+        for roles in (["sub"] * 4, ["sub", "relay", "relay", "sub"]):
+            fam.append({"n": 4, "kinds": ["gossip"] * 4, "edges": [[1, 2], [3, 4]], "roles": roles, "params": "small", "src": "directed-multitopic",
+                        "clones": c, "ops": [{"op": "conn", "a": 2, "b": 3, "gap": rng.choice(["s", "h", "l"])},
+                                             {"op": "pub", "a": 1, "b": 0, "gap": "l"}, {"op": "pub", "a": 4, "b": 0, "gap": "l"}]})
+    if ctx.thorough:
+        for c in (3, 7):
+            fam.append({"n": 5, "kinds": ["gossip", "gossip", "gossip", "gossip", "flood"], "edges": [[1, 2], [3, 4], [4, 5]], "roles": ["sub"] * 5,
+                        "params": "small", "src": "directed-multitopic", "clones": c,
+                        "ops": [{"op": "conn", "a": 2, "b": 3, "gap": "l"}, {"op": "pub", "a": 1, "b": 0, "gap": "l"}, {"op": "pub", "a": 5, "b": 0, "gap": "l"}]})
+    return fam
+
+
 def backpressure_family(ctx, rng):
     """Directed: a hub that subscribes / relays / cancels and re-subscribes on the measured topic in the very instant its outbound
     queues are full (it is pushing a burst on the bulk topic), for all three routers and mixes; then the usual settle period and one
@@ -454,11 +493,11 @@ def run_shard(ctx, binp, j, scns, debug=False, only=None, timeout=1500):
 
 # ----------------------------------------------------------------------------- coverage of validated batches
 
-def eager_unreached(c):
+def eager_unreached(c, kinds=None):
     """Subscribers a batch message could NOT reach by eager push alone (from the nodes' own state when the batch was
     published): they needed the IHAVE/IWANT round."""
-    n = len(c["kinds"])
-    kinds = c["kinds"]
+    kinds = kinds or c["kinds"]
+    n = len(kinds)
     intr = [len(c["live"][i]) > 0 or c["irelays"][i] > 0 for i in range(n)]
     need = set()
     for pb in c["pubs"]:
@@ -484,7 +523,7 @@ def eager_unreached(c):
     return need
 
 
-def batch_tags(c, oplines, scn=None, r=None, ru=None):
+def batch_tags(c, oplines, scn=None, r=None, ru=None, rcl=()):
     tags = set()
     scn, r, ru = scn or {}, r or {}, ru or {}
     n, kinds = len(c["kinds"]), c["kinds"]
@@ -546,6 +585,14 @@ def batch_tags(c, oplines, scn=None, r=None, ru=None):
                 tags.add("relay_after_other_sub")
     if scn.get("late_roles"):
         tags.add("late_roles")
+    # several measured topics in one batch: in how many of them did some subscriber need the IHAVE/IWANT round (the same
+    # gossip window had to advertise all of them over the same links)?
+    if c.get("clones") and c.get("iwant", 0) > 0:
+        ng = (1 if eager_unreached(c) else 0) + sum(1 for ci, x in enumerate(rcl) if x["verdict"] == "ok" and eager_unreached(c["clones"][ci], kinds))
+        if ng >= 2:
+            tags.add("multi_topic_gossip")
+        if ng >= 4:
+            tags.add("multi_topic_gossip_4")
     # an interest change announced while >= 1 outbound queue of the node was full (its own snapshot) and >= 1 other peer was
     # present, with >= 1 announcement dropped and left to announceRetry - before this (validated) batch
     for o in oplines:
@@ -574,7 +621,8 @@ def batch_tags(c, oplines, scn=None, r=None, ru=None):
 
 
 OBLIGATIONS = ["relaycut", "fanoutpub", "nonmember_pub", "gossip_flood", "randomsub", "ihave_needed", "unsub_resub", "disc_reconn",
-               "self", "two_subs", "other_topic", "relay_after_other_sub", "late_roles", "long_redraw", "bp_flood", "bp_random", "bp_gossip"]
+               "self", "two_subs", "other_topic", "relay_after_other_sub", "late_roles", "long_redraw", "bp_flood", "bp_random", "bp_gossip",
+               "multi_topic_gossip", "multi_topic_gossip_4"]
 
 
 # ----------------------------------------------------------------------------- main
@@ -669,10 +717,10 @@ def run(ctx):
             chosen += part
         scns = []
         for s in chosen:
-            d = decorate(s, rng, ctx.thorough)
+            d = add_clones(decorate(s, rng, ctx.thorough), s, rng, ctx.thorough)
             d["gid"] = len(scns)
             scns.append(d)
-        for d in long_family(ctx, rng) + backpressure_family(ctx, rng):
+        for d in long_family(ctx, rng) + backpressure_family(ctx, rng) + multitopic_family(ctx, rng):
             d["gid"] = len(scns)
             scns.append(d)
         vlib.write_ndjson(os.path.join(ctx.work, "scenarios.ndjson"), scns)
@@ -732,7 +780,7 @@ def run(ctx):
             res_by[(x["scn"], x["k"])] = x
 
     # ---- stage E: verdict and coverage
-    nchecks = nok = ndisc = evals = nok_u = nstream_msgs = 0
+    nchecks = nok = ndisc = evals = nok_u = nstream_msgs = nok_c = 0
     disc_why = {}
     tags_hit, samples, nontrivial = {}, [], set()
     drift = 0
@@ -763,10 +811,11 @@ def run(ctx):
             rr = res_by.get((gid, c["k"]))
             if rr is None:
                 raise vlib.Inconclusive("no verdict for batch k=%d of scenario %d" % (c["k"], gid))
-            r, ru = rr["t"], rr["u"]
+            r, ru, rcl = rr["t"], rr["u"], rr.get("cl", [])
+            c.setdefault("clones", [])
             if r["drift"] or ru.get("drift"):
                 drift += 1
-            if r["verdict"] == "badlog" or ru["verdict"] == "badlog":
+            if r["verdict"] == "badlog" or ru["verdict"] == "badlog" or any(x["verdict"] == "badlog" for x in rcl):
                 raise vlib.Inconclusive("driver log inconsistent with the tracked configuration (scenario %d, k=%d)" % (gid, c["k"]))
             # the unrelated second topic is judged by the same predicates
             if ru["verdict"] == "viol":
@@ -774,6 +823,13 @@ def run(ctx):
             elif ru["verdict"] == "ok":
                 nok_u += 1
                 evals += sum(1 for d in c["u"]["deliv"] if d["m"] in {p["m"] for p in c["u"]["pubs"]})
+            # the additional measured topics
+            for ci, x in enumerate(rcl):
+                if x["verdict"] == "viol":
+                    report(ctx, scn, c["clones"][ci], x, c, topic="T%d" % c["clones"][ci]["topic"])
+                elif x["verdict"] == "ok":
+                    nok_c += 1
+                    evals += sum(1 for d in c["clones"][ci]["deliv"] if d["m"] in {p["m"] for p in c["clones"][ci]["pubs"]})
             if r["verdict"] == "discard":
                 ndisc += 1
                 why = "+".join(w for w, ok in (("cfg", r["premcfg"]), ("env", r["premenv"]), ("settled", r["premsettled"])) if not ok) or "no-message-in-a-quiet-window"
@@ -788,7 +844,7 @@ def run(ctx):
                 evals += r["njudged"] * sum(len(x) for x in c["live"])
             else:
                 evals += sum(1 for d in c["deliv"] if d["m"] in {p["m"] for p in c["pubs"]})
-            tg = batch_tags(c, oplines, scn, r, ru)
+            tg = batch_tags(c, oplines, scn, r, ru, rcl)
             for t in tg:
                 tags_hit[t] = tags_hit.get(t, 0) + 1
             if any(len(c["live"][q]) > 0 and q + 1 != p["n"] for p in c["pubs"] for q in range(scn["n"])):
@@ -799,8 +855,8 @@ def run(ctx):
                                 "tags": sorted(tg)})
     if drift:
         ctx.notes.append("MODEL-DRIFT: in %d batches some node's ListPeers/GetTopics differed from the model's `known` (information only)" % drift)
-    ctx.log("batches: %d judged ok (+%d on the second topic; %d stream messages), %d discarded %s, %d violating; coverage %s" % (
-        nok, nok_u, nstream_msgs, ndisc, disc_why, len(ctx.violations), tags_hit))
+    ctx.log("batches: %d judged ok (+%d on the second topic, +%d on additional measured topics; %d stream messages), %d discarded %s, %d violating; coverage %s" % (
+        nok, nok_u, nok_c, nstream_msgs, ndisc, disc_why, len(ctx.violations), tags_hit))
     if not ctx.violations:
         miss = [t for t in OBLIGATIONS if not tags_hit.get(t)]
         if miss:
@@ -813,7 +869,7 @@ def run(ctx):
                    "some message had to reach a subscription on a node other than its publisher; distinct by (kinds, roles, graph, operation list) "
                    "after relabelling (N<=3)",
            "exhaustive": all(exhaustive.values()), "exhaustive_by_generator": exhaustive, "scenarios": len(scns),
-           "batches": {"total": nchecks, "judged": nok, "judged_second_topic": nok_u, "judged_stream_messages": nstream_msgs,
+           "batches": {"total": nchecks, "judged": nok, "judged_second_topic": nok_u, "judged_additional_measured_topics": nok_c, "judged_stream_messages": nstream_msgs,
                        "discarded": ndisc, "discard_reasons": disc_why},
            "obligations": {t: tags_hit.get(t, 0) for t in OBLIGATIONS}, "other_coverage": {t: v for t, v in tags_hit.items() if t not in OBLIGATIONS},
            "mc": mcinfo}
@@ -828,6 +884,8 @@ def run(ctx):
         "timing of churn steps, which eligible publishers form a batch, the two-subscription variant, the parameter family, hello-vs-announce construction "
         "order, the backpressure variant and the roles on the unrelated second topic U are seeded choices of the orchestrator; the second topic exists at code level only (in Net.tla "
         "topics are independent by construction: a second topic would be an independent copy of the same state)",
+        "several measured topics (clones of the topic under test: same roles, operations and publications, k = 2..8, batches of <= 2 publishers) exist at code "
+        "level only (per-topic state is independent in Net.tla); each is judged like the topic under test",
         "backpressure family: outbound queues of 8, bursts of 14 x 256 KiB on a bulk topic in the same virtual instant as the interest change; 'queue full' is "
         "read from the node's own snapshot and the dropped announcements from its tracer; bulk messages are never judged; measured batches there have <= 3 publishers",
         "long-running streams (directed family: hubs at D+Dlazy, a late link outside the meshes; plus a seeded fraction of generated scenarios) are judged PER "
@@ -863,7 +921,7 @@ def report(ctx, scn, c, r, line, topic="T"):
                                "%s of message %s%s (published by node %s %s) at node %s subscription %s: delivered %d time(s); kinds=%s edges=%s live=%s relays=%s%s%s" % (
                                    kind, d["m"], "" if topic == "T" else " on the second topic", p, kinds[p - 1] if p else "?", d["n"], d["s"], d["c"], kinds,
                                    line["edges"], c["live"], c["irelays"], (" uroles=%s" % scn["uroles"]) if scn.get("uroles") else "", drift),
-                               {"scenario": {k: scn[k] for k in ("n", "kinds", "roles", "edges", "ops", "params", "uroles", "late_roles", "queue", "bulk") if k in scn},
+                               {"scenario": {k: scn[k] for k in ("n", "kinds", "roles", "edges", "ops", "params", "uroles", "late_roles", "queue", "bulk", "clones") if k in scn},
                                 "check_line": {k: v for k, v in line.items() if k not in ("log", "pubs", "deliv")} if line.get("stream") else
                                               {k: v for k, v in line.items() if k != "log"}, "verdict": {k: (v if k not in ("bad", "dups") else v[:40]) for k, v in r.items()},
                                 "how": "write the scenario object as one line to a file and run harness/drivers/c01 TestC01Replay with VERIF_IN/VERIF_OUT (VERIF_C01_DEBUG=1 adds the wire log)"})
